@@ -25,6 +25,7 @@ type funcRun struct {
 	loopEnv  map[int]map[string]nameBinding
 	writes   map[int]*loopWrites
 	aborted  string
+	fvAddr   map[string]Val // free variables of a closure (addresses of the captured variables)
 }
 
 const maxPathsPerFunc = 6000
@@ -134,6 +135,10 @@ func (ex *Exec) verifyFunc(fn *ssa.Function, con *Contract) {
 		fr.vals[fv] = val
 		st.assume(smtAnd(sx("alive0", val.T), smtNot(sx("=", val.T, "nil"))))
 		fr.names[fv.Name()] = nameBinding{v: val, isAddr: true}
+		if run.fvAddr == nil {
+			run.fvAddr = map[string]Val{}
+		}
+		run.fvAddr[fv.Name()] = val
 		run.inputs[fv.Name()] = val.T
 	}
 	if fn.Signature.Recv() != nil && len(fn.Params) > 0 {
@@ -172,11 +177,19 @@ func (ex *Exec) funcEnv(st *State) *SpecEnv {
 		env.vars[k] = v
 	}
 	// free variables of closures: readable by name (value loaded from the captured cell at entry heap or current heap)
+	for name, v := range run.fvAddr {
+		if _, ok := env.vars[name]; !ok {
+			env.addr = ensureAddrMap(env.addr)
+			env.addr[name] = v
+		}
+	}
 	for name, nb := range st.topFrame().names {
 		if nb.isAddr {
 			if _, ok := env.vars[name]; !ok {
-				env.addr = ensureAddrMap(env.addr)
-				env.addr[name] = nb.v
+				if _, ok2 := env.addr[name]; !ok2 {
+					env.addr = ensureAddrMap(env.addr)
+					env.addr[name] = nb.v
+				}
 			}
 		}
 	}
